@@ -495,7 +495,10 @@ fn close_mode(inputs: &[Value], si: usize, sn: usize, out: &mut TraceOut, pend: 
                 // the drop; a thread parked inside the store may keep locks, so drop from a helper thread
                 let t_drop = Instant::now();
                 mark("drv.drop");
+                let dropper_tid = Arc::new(AtomicU64::new(0));
+                let dt = dropper_tid.clone();
                 let dropper = std::thread::spawn(move || {
+                    dt.store(unsafe { libc::syscall(libc::SYS_gettid) } as u64, Ordering::SeqCst);
                     drop(kv);
                     mark("drv.dropped");
                 });
@@ -521,8 +524,14 @@ fn close_mode(inputs: &[Value], si: usize, sn: usize, out: &mut TraceOut, pend: 
                 life_timeline(&mut ev, &cfgv);
                 let calls_until_gone = shim::take_calls();
                 let dirsnap = snapshot(&dir);
-                ev["changed_between_drop_and_worker_exit"] = json!(dirsnap != before_drop);
-                ev["mutating_calls_between_drop_and_worker_exit"] = json!(calls_until_gone.iter().filter(|c| c.mutating()).count());
+                let _ = &before_drop;
+                // what the DROP itself does on its own thread (a last flush or fsync at close, say) is the drop; what
+                // other threads do to the directory after it is background work.  An fsync changes nothing in it.
+                let dtid = dropper_tid.load(Ordering::SeqCst);
+                let by_others = calls_until_gone.iter().filter(|c| c.mutating() && c.kind != "fsync" && c.tid != dtid).count();
+                ev["changed_between_drop_and_worker_exit"] = json!(by_others > 0);
+                ev["mutating_calls_between_drop_and_worker_exit"] = json!(by_others);
+                ev["calls_of_the_drop_itself"] = json!(calls_until_gone.iter().filter(|c| c.mutating() && c.tid == dtid).count());
                 ev["after"] = use_closed_handle(&h);
                 let calls = shim::take_calls();
                 ev["mutating_calls_after_drop"] = json!(calls.iter().filter(|c| c.mutating()).count());
